@@ -197,7 +197,7 @@ pub(crate) fn read_tags_array(
             b']' => {
                 *inposp += 1;
                 if tag_num != num_tags - 1 {
-                    panic!("Tag count mismatch");
+                    return Err(InnerError::JsonBad("Tag count mismatch", *inposp).into());
                 }
                 break;
             }
@@ -207,7 +207,7 @@ pub(crate) fn read_tags_array(
                 verify_char(input, b'[', inposp)?;
                 tag_num += 1;
                 if tag_num >= num_tags {
-                    panic!("Tag count mismatch");
+                    return Err(InnerError::JsonBad("Tag count mismatch", *inposp).into());
                 }
                 eat_whitespace(input, inposp);
             }
